@@ -170,6 +170,22 @@ type idxCase struct {
 	Steps       []idxStep   `json:"steps,omitempty"`
 	Workers     [][]idxStep `json:"workers,omitempty"` // concurrent mode when non-empty
 	SharedTV    bool        `json:"shared_verifier,omitempty"`
+	ViaInstall  bool        `json:"via_install,omitempty"` // concurrent mode: reach VerifyIndex through registry.Install (dry run)
+}
+
+// recordingIndexVerifier lets a dry-run registry.Install drive the real
+// TrustedVerifier.VerifyIndex while the outcome of that inner call is observed.
+type recordingIndexVerifier struct {
+	inner *registry.TrustedVerifier
+	vi    *index.VerifiedIndex
+	err   error
+	calls int
+}
+
+func (r *recordingIndexVerifier) VerifyIndex(ctx context.Context, raw []byte) (*index.VerifiedIndex, error) {
+	r.calls++
+	r.vi, r.err = r.inner.VerifyIndex(ctx, raw)
+	return r.vi, r.err
 }
 
 func window(c idxCase) time.Duration {
@@ -372,7 +388,24 @@ func runIndexConc(c idxCase) (calls [][]concCall, final int64, out []verdict) {
 			}
 			<-start
 			for i := range raws[w] {
-				vi, err := tv.VerifyIndex(context.Background(), raws[w][i])
+				var vi *index.VerifiedIndex
+				var err error
+				if c.ViaInstall {
+					// two concurrent installs of different connector names never share a
+					// target lock; the index state lock alone must serialise them
+					rec := &recordingIndexVerifier{inner: tv}
+					idxFile := filepath.Join(base, fmt.Sprintf("index-%d-%d.json", w, i))
+					mustWrite(idxFile, raws[w][i], 0o644)
+					_, _ = registry.Install(context.Background(), registry.InstallOptions{Name: fmt.Sprintf("widget%d", w%2), DryRun: true,
+						ConnectorsPath: filepath.Join(base, "connectors"), IndexFile: idxFile, IndexVerifier: rec, ArtifactVerifier: &scriptedVerifier{script: "reject"},
+						RunningConduitVersion: "1.0.0", RunningProtocolVersion: "1.0.0"})
+					vi, err = rec.vi, rec.err
+					if rec.calls != 1 {
+						err = fmt.Errorf("Install called VerifyIndex %d times", rec.calls)
+					}
+				} else {
+					vi, err = tv.VerifyIndex(context.Background(), raws[w][i])
+				}
 				calls[w][i].Accepted = err == nil && vi != nil
 				calls[w][i].Code = codeOf(err)
 			}
@@ -478,7 +511,7 @@ func genIdxStep(t *rapid.T, l string, conc bool) idxStep {
 		s.Sign = pick(t, l+"/sign", "root", 16, "fresh", 5, "fresh+root", 2, "foreign+root", 1, "root-badsig", 2, "root-tampered", 2, "foreign-key", 2,
 			"root-keyid-foreign-sig", 1, "root-key-as-freshness", 1, "fresh-key-as-root", 1, "bad-alg", 1, "bad-b64", 1, "none", 1, "dupkey", 1)
 	}
-	s.Content = rapid.IntRange(0, 2).Draw(t, l+"/content")
+	s.Content = rapid.SampledFrom([]int{0, 0, 0, 1, 2}).Draw(t, l+"/content")
 	return s
 }
 
@@ -496,6 +529,7 @@ func genIdxCase(t *rapid.T) idxCase {
 			c.Workers = append(c.Workers, steps)
 		}
 		c.SharedTV = drawBool(t, "sharedtv")
+		c.ViaInstall = drawBool(t, "viainstall")
 		return c
 	}
 	n := rapid.IntRange(1, 10).Draw(t, "nsteps")
@@ -520,6 +554,9 @@ func TestC19Index(t *testing.T) {
 			calls, final, v := runIndexConc(c)
 			vs = v
 			cls = append(cls, "index:concurrent", fmt.Sprintf("index:workers=%d", len(c.Workers)))
+			if c.ViaInstall {
+				cls = append(cls, "index:concurrent-through-install")
+			}
 			acc, rb := 0, 0
 			for _, ws := range calls {
 				for _, cl := range ws {
@@ -549,6 +586,9 @@ func TestC19Index(t *testing.T) {
 				cls = append(cls, "index:"+f.Expect, "index:sign="+c.Steps[i].Sign)
 				if f.Expect == "refuse:rollback" {
 					nontrivial = true // a version went down below an accepted one
+				}
+				if f.Accepted && c.Steps[i].Sign == "fresh" {
+					cls = append(cls, "index:freshness-only-accepted")
 				}
 				if i > 0 && f.Accepted && c.Steps[i].Version == facts[i-1].Recorded {
 					cls = append(cls, "index:equal-version-accepted")
